@@ -20,7 +20,7 @@ package hash
 // property that relates this contract to the body; until then the body is trusted).
 //@ func (Concurrent).Hash
 //@ props C01 C02 C14 C04 C18
-//@ modifies hbuf, nrcv, rcvHash, rcvFile, rcvErr
+//@ modifies hbuf, nrcv, rcvHash, rcvFile, rcvErr, nSpawned
 //@ ensures [C04,digest] result1 == nil ==> result0 == DG(fsid, files)
 //@ ensures [C18,error-means-no-digest] result1 != nil ==> result0 == ""
 //@ ensures [C18,errors-propagate] result1 == nil ==> forall k int :: {rcvErr[k]} 0 <= k && k < nrcv ==> rcvErr[k] == nil
@@ -30,8 +30,11 @@ package hash
 //@ at return recv#0: ghost rcvErr = store(rcvErr, nrcv, received.err)
 //@ at return recv#0: ghost nrcv = (recvok ? nrcv + 1 : nrcv)
 //@ at call Stable#0: use hash_pool(accumulator, files)
-//@ loop 0: invariant nrcv == 0
+//@ loop 0: invariant nrcv == 0 && nSpawned == $iter && $iter >= 0
+//@ at entry: ghost nSpawned = 0
+//@ at call Add#0: ghost nSpawned = nSpawned + 1
 //@ loop 1: invariant nrcv >= 0 && len(accumulator) == nrcv
+//@ loop 1: invariant [C18,at-least-one-worker-per-job] len(files) >= 1 ==> nSpawned >= 1
 //@ loop 1: invariant forall k int :: {accumulator[k]} 0 <= k && k < nrcv ==> accumulator[k] == itemOf(rcvHash[k], rcvFile[k])
 //@ loop 1: invariant forall k int :: {errors[k]} 0 <= k && k < len(errors) ==> errors[k] != nil
 //@ loop 1: invariant len(errors) == 0 ==> (forall k int :: {rcvErr[k]} 0 <= k && k < nrcv ==> rcvErr[k] == nil)
